@@ -234,6 +234,27 @@ def rule_d2_d5(ck, prog, S):
                 ck.violated("C02-D5", st, K.loc(parse, sts_[0] if sts_ else pc),
                             "`%s` is not taken from the composed header that was looked up (%s.%s)" % (field, hdr_tok, src_field))
                 continue
+            # ... and the header token is not rewritten (composed) between that copy and the dispatch
+            def rewrites(n):
+                if n.k != "CallExpr":
+                    t = C.store_target(n)
+                    return t is not None and (t.get("path") or "").startswith(hdr_tok + ".")
+                mw = S.may_write(n.get("callee")) if n.get("callee") else None
+                return any(a.strip_all_casts().get("path") == "&" + hdr_tok for a in C.call_args(n)) and (mw is None or len(mw) > 0)
+            stale = None
+            for n in sts_:
+                r_ = pgs.reachable([pgs.after(n)], blocked_edge=lambda e: e.kind == "elem" and (e.node in det or e.node is pc))
+                for q, es in pgs.out.items():
+                    if q in r_:
+                        for e in es:
+                            if e.kind == "elem" and rewrites(e.node) and e.node not in det:
+                                stale = stale or (n, e.node)
+            if stale:
+                ck.violated("C02-D5", st, K.loc(parse, stale[0]),
+                            "`%s` is copied from the header token before `%s` rewrites that token: the handler sees the raw, "
+                            "uncomposed header of the unit (SCPI_CommandNumbers / SCPI_IsCmd answer for other text than was matched)"
+                            % (field, stale[1].src[:60]))
+                continue
         ck.holds("C02-D5", st, K.loc(parse, pc), "stored on the found edge before dispatch")
     # readers read exactly these
     for name, fields in (("SCPI_IsCmd", ["param_list.cmd"]), ("SCPI_CmdTag", ["param_list.cmd"]),
